@@ -118,6 +118,14 @@ class Ctx:
         """A concrete sanity run of a replay oracle on the real code (not part of the verdict)."""
         self.fidelity.append({"name": name, "ok": bool(ok), "detail": detail, "verdict_relevant": False})
 
+    def compiled_check(self, name, ok, detail=""):
+        """pyx2py translation vs compiled .so on concrete inputs.  They agree on the unchanged tree (which validates the
+        translator); a disagreement after the .pyx was edited means the compiled module is stale (Cython is not installed, nobody
+        can rebuild it here): verdicts are then about the source, and the evidence says so."""
+        self.fidelity.append({"name": name, "ok": bool(ok), "detail": detail, "kind": "translation-vs-compiled"})
+        if not ok:
+            self.notes.append("compiled_module_differs_from_source: %s" % name)
+
     def harness_error(self, msg):
         self.harness_errors.append(msg)
         print("HARNESS-ERROR property=%s %s" % (self.pid, msg), flush=True)
